@@ -111,6 +111,21 @@ def make_event(case):
                 again.append([-1, -1])
             after.append({"k": k, "seen": seen, "outcome": outcome, "again": again})
         full["raising"] = after
+        # a visitor that answers with other values than None / the stop signal (True, 1, "go", the node itself): not a stop
+        odd = []
+        for val in (True, 1, "go", "node", 0, ""):
+            got = []
+
+            def rec_o(node, depth, data, got=got, val=val):
+                got.append([objs.of(node), depth])
+                return node if val == "node" else val
+            try:
+                ret = getattr(root, meth)(rec_o)
+                got.append([0, 0] if ret is None else [-2, -2])       # the walk as a whole returns None
+            except BaseException:  # noqa
+                got.append([-1, -1])
+            odd.append(got)
+        full["odd"] = odd
         n = len(objs)
         for k in list(range(1, n + 1)) + [n + 1]:
             calls_k = []
@@ -143,6 +158,35 @@ def make_event(case):
             nested.append(outer_calls)
         full["nested"] = nested
         ev["orders"][o] = full
+    # a visitor that prunes an operand of the node it is called for: nodes removed before they were reached get no callback
+    ev["prune"] = []
+    if not via and 2 <= len(objs) <= 7:
+        for o, meth in ORD.items():
+            for k in range(1, len(objs) + 1):
+                for side in ("L", "R"):
+                    try:
+                        r2 = build(case)
+                    except BaseException:  # noqa
+                        continue
+                    o2 = project.ObjTable()
+                    project.absorb(o2, [r2])
+                    got = []
+                    cut = [0]
+
+                    def rec_p(node, depth, data, got=got, k=k, side=side, o2=o2, cut=cut):
+                        got.append([o2.of(node), depth])
+                        if len(got) == k:
+                            child = node.left if side == "L" else node.right
+                            if child is not None:
+                                cut[0] = o2.of(child)
+                                (node.set_left if side == "L" else node.set_right)(None)
+                        return None
+                    try:
+                        getattr(r2, meth)(rec_p)
+                    except BaseException:  # noqa
+                        got.append([-1, -1])
+                    if cut[0]:
+                        ev["prune"].append({"o": o, "k": k, "cut": cut[0], "calls": got})
     # traversals started at an inner node stay inside that node's subtree (depths count from the start node)
     ev["sub"] = []
     if len(objs) <= 7:
